@@ -487,7 +487,7 @@ def exInst : InstMsg :=
 def exState : State :=
   { supply := 125, mint := some ⟨"minter", some 1000⟩,
     balances := [("alice", 100), ("bob", 25), ("carol", 0)],
-    allow := [], allowSp := [], version := ⟨CONTRACT_NAME, 2, 0, 0⟩ }
+    allow := [], allowSp := [], version := ⟨CONTRACT_NAME, 2, 0, 0, none⟩ }
 
 def exBlk : Block := ⟨100, 5000⟩
 
